@@ -292,6 +292,25 @@ def run(ctx: Context) -> None:
                   construct='disable_default_fill_value(...) dominates to_netcdf(...)')
         ok_path = bool(wr.args) and tflow.canon(wr.args[0]) == ('param', tn.params[1]) and any(k.arg is None for k in wr.keywords)
         ctx.check('R17.4', ok_path, "the file is written to the caller's path with the caller's options", tn, wr)
+        # a caller's `encoding=` replaces a variable's whole encoding, marker included: the marker is carried into it
+        kwn = next((k.value.id for k in wr.keywords if k.arg is None and isinstance(k.value, ast.Name)), None)
+        carries = [n for n in walk_no_nested(tn.node) if isinstance(n, ast.Assign) and isinstance(n.targets[0], ast.Subscript)
+                   and const_value(n.targets[0].slice, None) == 'encoding' and isinstance(n.targets[0].value, ast.Name) and n.targets[0].value.id == kwn]
+        ok_carry, why = False, 'the encoding argument is passed on as it is'
+        if len(carries) == 1:
+            st_c = carries[0]
+            marker = [d_ for d_ in ast.walk(st_c.value) if isinstance(d_, ast.Dict) and any(k_ is not None and const_value(k_, None) == '_FillValue' and const_value(v_, 0) is None
+                                                                                            for k_, v_ in zip(d_.keys, d_.values))
+                      and any(k_ is None for k_ in d_.keys)]
+            # caller's keys win: the ** expansion comes after the marker
+            order_ok = bool(marker) and all([i for i, k_ in enumerate(d_.keys) if k_ is None][-1] > [i for i, k_ in enumerate(d_.keys) if k_ is not None and const_value(k_, None) == '_FillValue'][0]
+                                            for d_ in marker)
+            tests = [norm_text(t_) for t_ in ast.walk(st_c.value) if isinstance(t_, ast.Compare) and "encoding.get('_FillValue'" in norm_text(t_) and norm_text(t_).endswith('is None')]
+            after_marker = tcfg.dominates(stmt_of(tn, fl), st_c) and st_c.lineno < stmt_of(tn, wr).lineno
+            ok_carry = bool(marker) and order_ok and bool(tests) and after_marker
+            why = f"kwargs['encoding'] rebuilt with {{'_FillValue': None, **given}} where the copy's marker is None: {ok_carry}"
+        ctx.check('R17.4', ok_carry, "an `encoding` argument cannot undo the suppression: for every variable it names whose marker says 'no fill value', that marker is put into the "
+                  "given encoding (the caller's own _FillValue wins), after the suppression and before the write", tn, carries[0] if carries else wr, construct=why)
         from .common import positive_conditions
         g = [(norm_text(t), pol) for t, pol in positive_conditions(tn, fx)]
         # exactly "a time variable was given": any further condition lets a file keep units EMS cannot read
@@ -433,6 +452,8 @@ VARIANTS = [
     V('C17', 'time-bounds-taken-for-time', 'src/emsarray/conventions/_base.py', "            if name in bounds_names:\n                # The bounds of a time coordinate are decoded like the coordinate\n                continue\n", "", 'R17.5'),
     V('C17', 'bounds-names-from-data-vars', 'src/emsarray/utils.py', "        for variable in dataset.variables.values()\n        if 'bounds' in variable.attrs", "        for variable in dataset.data_vars.values()\n        if 'bounds' in variable.attrs", 'R17.5'),
     V('C17', 'abs-removed', _U, "divmod(abs(int(offset_total)), 60)", "divmod(int(offset_total), 60)", 'R17.1'),
+    V('C17', 'encoding-argument-drops-the-marker', _U, "                {'_FillValue': None, **encoding}\n", "                encoding\n", 'R17.4'),
+    V('C17', 'marker-overrides-callers-fill-value', _U, "                {'_FillValue': None, **encoding}\n", "                {**encoding, '_FillValue': None}\n", 'R17.4'),
     V('C17', 'one-digit-offset-not-padded', _U, "    date_string = re.sub(\n        r'(:\\d{1,2}(?:\\.\\d+)?\\s*[+-])(\\d)(?=(:\\d\\d)?$)', r'\\g<1>0\\2', date_string.strip())\n", "    date_string = date_string.strip()\n", 'R17.1'),
     V('C17', 'padding-only-after-blank', _U, "r'(:\\d{1,2}(?:\\.\\d+)?\\s*[+-])(\\d)(?=(:\\d\\d)?$)'", "r'(:\\d{1,2}(?:\\.\\d+)?\\s+[+-])(\\d)(?=(:\\d\\d)?$)'", 'R17.1'),
     V('C17', 'reference-from-unpadded-units', _U, "    units = f'{period} since {date_string}'\n", "", ('R17.2', 'R17.3')),
@@ -445,7 +466,7 @@ VARIANTS = [
     V('C17', 'year-by-strftime', _U, "{offset_datetime.year:04d}-{offset_datetime:%m-%d %H:%M:%S}", "{offset_datetime:%Y-%m-%d %H:%M:%S}", 'R17.2'),
     V('C17', 'year-of-unshifted-epoch', _U, "{offset_datetime.year:04d}-{offset_datetime:%m-%d %H:%M:%S}", "{reference_datetime.year:04d}-{offset_datetime:%m-%d %H:%M:%S}", 'R17.2'),
     V('C17', 'reparse-check-removed', _U, "    if cftime.num2pydate(0, new_units, calendar) != reference_datetime:\n        raise ValueError(\n            \"New units does not resolve to the same reference time! \"\n            f\"Existing: {units!r}, new: {new_units!r}\"\n        )\n", "", 'R17.3'),
-    V('C17', 'fill-after-write', _U, "    disable_default_fill_value(dataset)\n\n    dataset.to_netcdf(path, **kwargs)", "    dataset.to_netcdf(path, **kwargs)\n    disable_default_fill_value(dataset)", 'R17.4'),
+    V('C17', 'fill-after-write', _U, "    dataset.to_netcdf(path, **kwargs)\n    if time_variable is not None:", "    dataset.to_netcdf(path, **kwargs)\n    disable_default_fill_value(dataset)\n    if time_variable is not None:", 'R17.4'),
     V('C17', 'no-copy', _U, "    dataset = dataset.copy(deep=False)\n", "", 'R17.4'),
     V('C17', 'fill-overrides-attrs', _U, "            and \"_FillValue\" not in variable.attrs\n", "", 'R17.4'),
     V('C17', 'fill-only-floats', _U, "            current_dtype == promoted_dtype\n", "            numpy.issubdtype(current_dtype, numpy.floating)\n", 'R17.4'),
